@@ -91,6 +91,9 @@ type Term struct {
 	bv      bool     // SBool
 	fv      float64  // SFP*
 	sv      string   // SStr
+	// poison: the term contains a division by the constant zero (NaN / Inf natively);
+	// assertions over such terms are exempt (zero-denominator positions)
+	poison bool
 }
 
 // TermStore hash-conses terms for one run.
@@ -184,7 +187,16 @@ func (ts *TermStore) mk(sort Sort, op string, args ...*Term) *Term {
 		sb.WriteString(strconv.Itoa(a.id))
 	}
 	return ts.intern(sb.String(), func() *Term {
-		return &Term{sort: sort, op: op, args: append([]*Term(nil), args...)}
+		t := &Term{sort: sort, op: op, args: append([]*Term(nil), args...)}
+		for _, a := range args {
+			if a.poison {
+				t.poison = true
+			}
+		}
+		if op == "/" && len(args) == 2 && args[1].isConst && args[1].rat != nil && args[1].rat.Sign() == 0 {
+			t.poison = true
+		}
+		return t
 	})
 }
 
